@@ -37,14 +37,18 @@ CHECKS = {
   technique="Coq proofs of the id API on top of the C20 allocator refinement + ownership invariant over all histories (walker proof) + ownership-ghost monitor, store stage, allocator stage + differential correspondence"), "C05": dict(
   text="Coq theorems, Closed under the global context, for every state: after notify_closed the connection is Disconnected with an empty frame "
        "builder and a client's CONNECT is then accepted; every refused frame is reported by an error event, delivers nothing and keeps the "
-       "session state. PARTIAL (C05_partial): 'no call panics / no wrap / finite events' over all histories is decided by running every "
-       "call of the implementation under catch_unwind in a debug build (overflow checks, debug assertions) with the full-digest "
-       "correspondence to the model (whose Panic outcomes mark core.rs's unwrap/assert sites) and the monitor mon_c05 (panic, frame neither "
-       "delivered nor answered nor reported, no progress); model functions are total by construction. Known finding F-05c is reported as KNOWN-FINDING.",
+       "session state. NO CALL OF THE MODEL PANICS, OVER ALL HISTORIES (C05_step_no_panic, C05_history_no_panic: walks through every function "
+       "of the model): the model's Panic outcomes mark core.rs's unwrap / assert / unreachable sites (store.add().unwrap(), release of an "
+       "identifier not in use, the topic-alias table assertions, assert!(val != 0) on received limits, 'protocol version should be set'); "
+       "from every state with the ownership invariant, the alias-table bounds and a determined version, every call — whatever bytes the peer "
+       "sends — returns normally and re-establishes them, under the application's side of the contract and what the parser guarantees about "
+       "an accepted packet. PARTIAL (C05_partial): for the IMPLEMENTATION, 'no call panics / no wrap / finite events' is decided by running "
+       "every call (and the getters read after it) under catch_unwind in a debug build (overflow checks, debug assertions) with the "
+       "full-digest correspondence to the model and the monitor mon_c05 (panic, frame neither delivered nor answered nor reported, no "
+       "progress); model functions are total by construction. Known finding F-05c is reported as KNOWN-FINDING.",
   ref="DESIGN.md §3 C05, §4 F-05c",
   note=CONN_NOTE + " C05 compares the complete 34-field digest, all events, return values and panics.",
-  technique="Coq per-step proofs + catch_unwind monitor + full-state differential correspondence"),
- "C06": dict(
+  technique="Coq proofs: per-step facts + no-panic invariant over all histories of the model (walker proofs on the ownership invariant) + catch_unwind monitor + full-state differential correspondence"), "C06": dict(
   text="Coq theorems, Closed under the global context, for every state: an acknowledgement (PUBACK/PUBREC/PUBCOMP) that matches nothing in flight "
        "is handled exactly as a protocol error, whose outcome erases no stored packet and frees no identifier; on v3.1.1 an accepted QoS>0 "
        "PUBLISH is requested for sending or is in the store; OVER ALL HISTORIES, both versions (C06_stored_until_released, by a walk through every "
